@@ -3,6 +3,7 @@ package vuego
 import (
 	"fmt"
 	"reflect"
+	"sort"
 	"strconv"
 	"strings"
 	"sync"
@@ -335,7 +336,10 @@ func (s *Stack) ForEach(expr string, fn func(index int, value any) error) error 
 		}
 		return nil
 	case reflect.Map:
+		// Go map iteration order is random: iterate in key order so that the same
+		// data always renders the same output.
 		keys := rv.MapKeys()
+		sort.Slice(keys, func(i, j int) bool { return fmt.Sprint(keys[i]) < fmt.Sprint(keys[j]) })
 		for i, key := range keys {
 			if err := fn(i, rv.MapIndex(key).Interface()); err != nil {
 				return err
